@@ -226,8 +226,13 @@ def pubWorldOp (j : Json) : Except String Res := do
   let refetchOk := match j.getObjVal? "refetch_differs" with
     | .ok (Json.arr a) => a.isEmpty
     | _ => true
+  -- what the world put on the screen
+  let shown : List Str := match j.getObjVal? "shown" with
+    | .ok (Json.arr a) => a.toList.filterMap fun v => match v with | Json.str s => some s.toList | _ => none
+    | _ => []
   pure { model := Json.mkObj fields,
-         preds := [("served_by_the_host_in_its_id", prov), ("refetched_document_is_what_was_served", refetchOk), ("listed_entries_are_genuine", genuine),
+         preds := [("safe_output", shown.all Safe.safe), ("neutral_at_line_ends", shown.all Cells.neutralAtBreaks),
+                   ("served_by_the_host_in_its_id", prov), ("refetched_document_is_what_was_served", refetchOk), ("listed_entries_are_genuine", genuine),
                    ("authors_share_the_posts_host", authors), ("listing_is_the_pages_items_in_order", pagesOk),
                    ("requests_wellformed", wireOk), ("no_plaintext_connection", canary == 0)],
          nontrivial := kidsI.length ≥ 1 || (match impl.getObjVal? "parents" with | .ok (Json.arr a) => a.size ≥ 1 | _ => false) }
